@@ -3,6 +3,7 @@ package server
 import (
 	"context"
 	"encoding/json"
+	"github.com/juev/hledger-lsp/internal/verifhook"
 	"regexp"
 	"strings"
 
@@ -116,6 +117,7 @@ func (s *Server) getPayeeTemplates(uri protocol.DocumentURI, content string) map
 		result = s.analyzer.Analyze(journal)
 	}
 
+	verifhook.Point("templates.computed", string(uri))
 	s.payeeTemplatesCache.Store(uri, result.PayeeTemplates)
 	return result.PayeeTemplates
 }
